@@ -214,6 +214,15 @@ def e2e_identifiers(run, ctx, known) -> None:
         for op, t in zip(ops, rr.sample(["import", "global", "config", "class", "async", "None"], min(len(ops), 2))):
             op["tags"] = [t]
         cases.append({"id": f"c20-e2e-{i}", "doc": doc, "strategy": ["operationId", "clean", "path"][i % 3], "fmt": "json", "dup_ids": False, "int_status_keys": False})
+    # F4 repaired: a parameter declared at path level AND at operation level (same name, same `in`) is ONE argument of the method - the
+    # former witness and the same feature injected into generated documents (a duplicate argument is a SyntaxError: a violation)
+    from . import C01
+    cases.append({"id": "c20-e2e-former-F4", "doc": C01.witness_doc("F4"), "strategy": "operationId", "fmt": "json", "dup_ids": False, "int_status_keys": False})
+    for i in range(ctx.budget(4, 30)):
+        rr = rng(f"C20:e2e-override:{i}")
+        doc = gs.gen_spec(rr, gs.Opts(mainstream=True, max_ops=5, multi_tags=False, always_opid=(i % 2 == 0), streaming=False))
+        if C01.inject_param_override(doc, rr):
+            cases.append({"id": f"c20-e2e-override-{i}", "doc": doc, "strategy": ["operationId", "clean", "path"][i % 3], "fmt": "json", "dup_ids": False, "int_status_keys": False})
     results = _e2e.run_cases("vf.props.C07:case_fn", cases)
     for case, res in zip(cases, results):
         if "infra_error" in res:
